@@ -132,6 +132,9 @@ func (c *vUniConn) WriteMessage(mt int, p []byte) error {
 		return errVIO
 	}
 	if e.ok {
+		if e.ctxDone {
+			c.st.cancel() // the context ends while the write succeeds: the call goes on and reads the response
+		}
 		return nil
 	}
 	if e.ctxDone {
@@ -216,13 +219,16 @@ func vUniFrame(r *vRand) ([]byte, bool, string) {
 func vUniScript(r *vRand, maxLen int) []vUniEv {
 	var s []vUniEv
 	st := "write"
+	done := false // the context has ended (during an operation which succeeded): it stays ended
 	for len(s) < maxLen {
 		switch st {
 		case "write":
 			if r.Intn(4) > 0 {
-				s = append(s, vUniEv{kind: "write", ok: true})
+				e := vUniEv{kind: "write", ok: true, ctxDone: !done && r.Intn(6) == 0}
+				done = done || e.ctxDone
+				s = append(s, e)
 				st = "read"
-			} else if r.Intn(4) == 0 {
+			} else if done || r.Intn(4) == 0 {
 				return append(s, vUniEv{kind: "write", ctxDone: true})
 			} else {
 				s = append(s, vUniEv{kind: "write"})
@@ -232,7 +238,7 @@ func vUniScript(r *vRand, maxLen int) []vUniEv {
 			if r.Intn(9) < 4 {
 				f, own, class := vUniFrame(r)
 				return append(s, vUniEv{kind: "read", ok: true, frame: f, own: own, class: class})
-			} else if r.Intn(4) == 0 {
+			} else if done || r.Intn(4) == 0 {
 				return append(s, vUniEv{kind: "read", ctxDone: true})
 			}
 			s = append(s, vUniEv{kind: "read"})
